@@ -20,7 +20,8 @@ FILES = [
 ]
 REQUIRED_THEOREMS = ["C18_first_stop", "C18_never_self", "C18_needs_history", "C18_variance_refused",
                      "C18_unknown_criterion", "C18_deprecated_eq", "C18_degenerate_no_stop", "C18_tolerance_infinite",
-                     "C18_first_stop_multi", "C18_stop_request_stands", "C18_stop_request_stands_dispatch"]
+                     "C18_first_stop_multi", "C18_stop_request_stands", "C18_stop_request_stands_dispatch",
+                     "C18_fit_keeps_monitoring", "C18_clear_history_monitors"]
 EXTRA_TRUSTED = [
     "C18: the monitored values are scripted functions of the epoch; float64 sub/div/abs/sqrt and `<` of Lean's Float are IEEE, "
     "as are Python's and numpy's, so decisions are compared exactly",
@@ -43,6 +44,16 @@ RULE = ("case = (criterion, evaluator class, patience 1..5, evaluator period 1..
         "stop_training = True at one epoch (in on_epoch_end, as a CallbackBase subclass or a LambdaCallback, or in on_batch_end of that epoch); "
         "also two EVALUATORS (own periods, the same or different quantity names) with one stopper bound to each, all callbacks in "
         "a shuffled list order (oracle only); non-trivial iff some stopper made a comparison. "
+        "SESSIONS: 3..10 consecutive fit calls re-using the SAME evaluator and stopper objects (and the same or a fresh callback list); a call "
+        "makes exactly ONE evaluation (evaluator period <= epochs < 2 * period) or several; epoch numbering restarts at 1 (or 0) in every call or "
+        "continues with starting_epoch; clear_history() before a call with probability 0.15; after a stop the session ends or the flag is reset "
+        "and training resumes; non-trivial iff a comparison took place. "
+        "DEPRECATED CLASS: every VarianceBasedEarlyStopping gets its documented-as-ignored variance_name from {'std_error', 'mean', 'num_samples', "
+        "'variance', '<name>_variance', 'whatever', None}, positionally / by keyword / omitted; the scripted statistics carry std_error and "
+        "num_samples far away from the variance. "
+        "JUDGED AS REFUSED-OR-NOT (no exception type): variance criterion on a MetricEvaluator must be refused, configurations inside the "
+        "quantifier must build and their runs must not raise; unknown criteria, non-evaluators, patience None / str, other spellings of the "
+        "criterion, float patience, untracked names, the stopper's attributes: informational counters. "
         "ARGUMENT FORMS (every generated case, stream `aseed`): the periods of evaluators and stoppers, patience, num_samples, the epochs / "
         "starting_epoch / pos_batch_size / k of fit and the sizes of the state are handed over as Python int, numpy.int64 / int32 / intp / uint8, "
         "0-d integer numpy array or 0-d integer torch tensor; verbose (falsy) and gpu as bool, int, numpy.bool_, numpy comparison result, 0-d numpy "
@@ -525,7 +536,8 @@ def one_session(ctx, case):
         ctx.count("session.with-clear_history")
     nstops = sum(1 for r in ref if r["fresh"])
     ctx.count("session.stops=%d%s" % (nstops, " (resumed)" if case["resume"] and nstops and len(ref) > 1 + next(i for i, r in enumerate(ref) if r["fresh"]) else ""))
-    th = "C18_session (every call of the session: C18_first_stop with the evaluations of the earlier calls as `prev`)"
+    th = ("C18_first_stop (every call, with the evaluations of the earlier calls as `prev`: C18_fit_keeps_monitoring, "
+          "C18_clear_history_monitors, C18_fit_entered_stopped)")
 
     # `last_epoch` after a resumed stop, in a call that did not stop again, is the stale value of the earlier stop in the current code;
     # the property says nothing about it: masked on both sides
